@@ -73,7 +73,7 @@ func newBatchWorld(t *testing.T, rc *RunCtx, twin bool) *batchWorld {
 	case 2:
 		perms = map[string][]*checker.Permissions{"client1": {{Path: ".*", Operations: []string{"All", "None"}}}}
 	case 3:
-		perms = map[string][]*checker.Permissions{"client1": {{Path: "Big", Operations: []string{"Sign beacon attestation", "Sign beacon proposal", "Sign", "~Lock wallet", "~Create account"}}}}
+		perms = map[string][]*checker.Permissions{"client1": {{Path: "Big(Shared)?", Operations: []string{"Sign beacon attestation", "Sign beacon proposal", "Sign", "~Lock wallet", "~Create account"}}}}
 	}
 	// A fifth of the twin runs: the unlocker knows no account passphrases (the operator unlocks accounts by hand; the
 	// large wallet's accounts are unlocked already).  An unlocked account signs whatever the unlocker could or could not do.
@@ -195,6 +195,29 @@ func runBatch(t *testing.T, rc *RunCtx, prop string) {
 	uniq := uint64(0)
 	var desc []string
 	nontrivial := false
+	if prop == "C08" && ch.Pick(4, 0) == 3 {
+		// The share of a threshold key this instance holds, addressed three ways: by name, by the share's public key, and by
+		// the validator's (composite) key - which names no account here.  Whatever is signed verifies under the key (or the
+		// account) the request addressed.
+		sh := w.pop.Accts[len(w.pop.Accts)-1]
+		if sh.Composite != nil {
+			for v := 0; v < 3; v++ {
+				uniq++
+				e := GenEntry(sh.idx, MkDomain([4]byte{7, 0, 0, 0}, uniq), uniq)
+				switch v {
+				case 1:
+					e.ByKey = true
+				case 2:
+					e.AddrKey = sh.Composite
+				}
+				o := &Op{Kind: []string{"gen", "multi"}[ch.Pick(2, 0)], Client: "client1", Entries: []Entry{e}}
+				var res *OpResult
+				w.s.Direct(func() { res = o.Exec(w.a) })
+				Monitor(rc, ledger, w.pop, o, res, 0, false)
+				rc.Stats.Inc("probe_threshold_share_addressed_three_ways", 1)
+			}
+		}
+	}
 	for r := 0; r < rounds && len(rc.Viol) == 0; r++ {
 		if r > 0 && ch.Pick(4, 0) == 3 {
 			// Clean restart of both instances between rounds: the next requests are the first after start-up.
